@@ -316,6 +316,44 @@ def directed_malformed(start_id):
     return out
 
 
+def directed_wide_predictors(start_id):
+    """predictors on the 33-bit side channel of 32-bit audio, given by their fields (outside the format model's arithmetic, so these
+    only serve must-not-panic / bounded memory): values that GROW through prediction - a large coefficient at shift 0 multiplies the
+    history at every step, which no single field pushed to its extreme does"""
+    out = []
+    k = start_id
+    edge = [-(1 << 31), (1 << 31) - 1]
+    hi, lo = (1 << 32) - 1, -(1 << 32) + 1
+    MAX = (1 << 31) - 1
+    shapes = []
+    for warm in ([1 << 21], [hi], [lo], [1], [-(1 << 16)]):
+        for coef, prec in ((-16384, 15), (16383, 15), (-2, 2), (-32768, 16), (255, 9)):
+            for shift in (0, 1, 15):
+                shapes.append(("lpc", 1, {"precision": prec, "shift": shift, "coefs": [coef]}, warm, [0]))
+    for warm in ([hi, lo], [hi, hi], [1 << 20, -(1 << 20)]):
+        shapes.append(("lpc", 2, {"precision": 15, "shift": 0, "coefs": [16383, 16383]}, warm, [0]))
+        shapes.append(("lpc", 2, {"precision": 15, "shift": 0, "coefs": [-16384, 16383]}, warm, [MAX, -MAX]))
+        shapes.append(("fixed", 2, {}, warm, [MAX]))
+        shapes.append(("fixed", 2, {}, warm, [-MAX, MAX]))
+    shapes.append(("fixed", 4, {}, [hi, lo, hi, lo], [MAX]))
+    shapes.append(("fixed", 4, {}, [hi, lo, hi, lo], [0]))
+    shapes.append(("fixed", 1, {}, [hi], [MAX]))
+    shapes.append(("fixed", 3, {}, [lo, hi, lo], [-MAX]))
+    shapes.append(("lpc", 8, {"precision": 15, "shift": 0, "coefs": [16383] * 8}, [hi] * 8, [MAX]))
+    shapes.append(("lpc", 32, {"precision": 15, "shift": 0, "coefs": [-16384] * 32}, [lo] * 32, [-MAX]))
+    for ty, order, extra, warm, res in shapes:
+        for assign in ("ls", "sr", "ms"):
+            for bs in sorted({max(order + 1, 4), order + 5, order + 8, 40}):
+                k += 1
+                raw = dict({"type": ty, "order": order, "method": 1, "po": 0, "params": [["rice", 30]],
+                            "ov": {"wide": [wide_pair(x) for x in warm], "res": res}}, **extra)
+                plain = {"type": "verbatim"}
+                out.append({"id": k, "channels": 2, "bps": 32, "rate": 44100, "bpscode": "hdr", "selfcheck": False, "class": "wide-predictor",
+                            "frames": [{"bs": bs, "chassign": assign, "subs": [raw, plain] if assign == "sr" else [plain, raw]}],
+                            "pcm": [[edge[i % 2] for i in range(bs)], [edge[(i + 1) % 2] for i in range(bs)]]})
+    return out
+
+
 def directed_valid(start_id):
     """valid streams at corners random plans hit too rarely: every pair of rail / near-rail values on the two channels of a stereo frame under
     each decorrelation (side = +-(2^bps - 1), mid at the rails), coded verbatim, fixed and with escapes"""
